@@ -167,6 +167,24 @@ func c01CredGen(rt *rapid.T) c01CredCase {
 	return c
 }
 
+// c01CredWant looks the case up in the golden file (replay of a golden mismatch).
+func c01CredWant(c *c01CredCase) *c01ref.DTLSCreds {
+	b, err := os.ReadFile(filepath.Join(c01GoldenDir(), "dtlscreds.json"))
+	if err != nil {
+		return nil
+	}
+	var f c01CredGoldenFile
+	if json.Unmarshal(b, &f) != nil {
+		return nil
+	}
+	for i := range f.Records {
+		if string(f.Records[i].Case.Secret) == string(c.Secret) {
+			return &f.Records[i].Want
+		}
+	}
+	return nil
+}
+
 func TestVerif_C01_dtlscreds(t *testing.T) {
 	rec := vh.NewRec("C01", "dtlscreds", "DTLS credentials derived from the shared secret (client / server certificate public key, serial, CN; client-hello random) by the code vs the independent reference, derived twice (purity), over rapid-generated secrets, preceded by the replay of /verif/golden/C01/dtlscreds.json. Every case is non-trivial. Distinct = distinct secret.")
 	defer rec.Flush()
@@ -175,7 +193,7 @@ func TestVerif_C01_dtlscreds(t *testing.T) {
 		if _, _, err := vh.LoadReplay(p, &c); err != nil {
 			t.Fatal(err)
 		}
-		c01CredCheck(t, rec, &c, nil)
+		c01CredCheck(t, rec, &c, c01CredWant(&c))
 		return
 	}
 	rec.Require("golden-record")
